@@ -77,7 +77,10 @@ def cases(draw, tier):
             "axis": draw(st.sampled_from(["sample", "observation", "whole"])),
             "flag": draw(st.booleans()), "flag2": draw(st.booleans()),
             "n": draw(st.integers(1, 7)), "m": draw(st.integers(1, 7)),
-            "f": draw(st.sampled_from(["add", "max", "first"]))}
+            "f": draw(st.sampled_from(["add", "max", "first"])),
+            "sub": kind in ("summarize", "table_ids", "head",
+                            "export_metadata") and
+            draw(st.sampled_from([False] * 40 + [True]))}
     return case
 
 
@@ -89,15 +92,16 @@ def close3(a, b):
     return abs(a - b) <= 5.1e-4 + 1e-9 * abs(b)
 
 
-def run_cmd(cmd, args):
-    buf = io.StringIO()
-    with contextlib.redirect_stdout(buf):
-        try:
-            cmd.main(args, standalone_mode=False)
-        except SystemExit as e:
-            if e.code not in (0, None):
-                raise RuntimeError("command exited %r" % (e.code,))
-    return buf.getvalue()
+NAMES = {}
+
+
+def run_cmd(cmd, args, sub=False):
+    from ..cli import invoke
+    rc, out = invoke(cmd, cmd.name, args, sub)
+    if rc != 0:
+        raise Violation("cli-exit", "biom %s %s exited %r: %s" %
+                        (cmd.name, args, rc, out[-300:]))
+    return out
 
 
 def check(case, rec):
@@ -209,10 +213,10 @@ def check(case, rec):
                 (["--observations"] if obs_mode else [])
             if case["n"] % 2:
                 o = os.path.join(d, "summary.txt")
-                run_cmd(summarize_table, args + ["-o", o])
+                run_cmd(summarize_table, args + ["-o", o], case.get("sub"))
                 text = open(o, encoding="utf8").read()
             else:
-                text = run_cmd(summarize_table, args)
+                text = run_cmd(summarize_table, args, case.get("sub"))
                 text = text[:-1] if text.endswith("\n") else text
         M = D.T if obs_mode else D
         unit_ids = ref.obs if obs_mode else ref.samp
@@ -282,7 +286,8 @@ def check(case, rec):
                 from biom.cli.table_ids import summarize_table as table_ids
                 obs_mode = case["flag"]
                 out = run_cmd(table_ids, ["-i", p] + (["--observations"]
-                                                      if obs_mode else []))
+                                                      if obs_mode else []),
+                              case.get("sub"))
                 want = ref.obs if obs_mode else ref.samp
                 if out.split("\n")[:-1] != want:
                     bad(kind, "printed %r, ids are %r" % (out, want))
@@ -292,10 +297,10 @@ def check(case, rec):
                 args = ["-i", p, "-n", str(hn), "-m", str(hm)]
                 if case["flag"]:
                     o = os.path.join(d, "head.txt")
-                    run_cmd(head, args + ["-o", o])
+                    run_cmd(head, args + ["-o", o], case.get("sub"))
                     out = open(o, encoding="utf8").read()
                 else:
-                    out = run_cmd(head, args)
+                    out = run_cmd(head, args, case.get("sub"))
                 rows = [ln.split("\t") for ln in out.split("\n") if ln]
                 if rows[0] != ["# Constructed from biom file"] or \
                         rows[1][0] != "#OTU ID":
@@ -377,7 +382,7 @@ def check(case, rec):
                 jt = t.to_json("vf")
                 open(p, "w", encoding="utf8").write(jt)
                 flag = "-m" if ax == "sample" else "--observation-metadata-fp"
-                out = run_cmd(export_metadata, ["-i", p, flag, o])
+                out = run_cmd(export_metadata, ["-i", p, flag, o], case.get("sub"))
                 if not os.path.exists(o):
                     bad(kind, "export-metadata wrote no file for the %s "
                         "axis (which has metadata): %r" % (ax, out))
@@ -401,3 +406,16 @@ def check(case, rec):
     if observe.snapshot(t) != before:
         bad("table-changed", "the summary changed the table")
     rec.nt(nt and bool((D != 0).any()))
+
+
+_T = {"obs": ["o1", "o2"], "samp": ["s1", "s2", "s3"],
+      "rows": [[1.0, 0.0, 3.0], [2.0, 2.0, 0.0]],
+      "obs_md": [{"p": "x", "q": "y"}, {"q": "z w", "p": "y"}],
+      "samp_md": None, "type": "OTU table", "form": "dense", "history": []}
+REGRESSIONS = [
+    {"table": _T, "kind": k, "axis": "observation", "flag": fl, "flag2": f2,
+     "n": 1, "m": 2, "f": "add", "sub": True}
+    for k, fl, f2 in (("summarize", False, True), ("table_ids", True, False),
+                      ("head", False, False),
+                      ("export_metadata", False, False))
+]
